@@ -83,6 +83,15 @@ fn suite_apply(out: &mut Out, tier: &str, rng: &mut Rng) {
         let a = random_term(rng, b, 0, 6, true);
         pairs.push((t, a));
     }
+    // very deep binder nesting: the bound variable (and an outer reference next to it) below d binders
+    for d in [200usize, 1023, 1024, 1025, 1500, 2600] {
+        let mut body = app(Var(d + 1), app(Var(d + 3), Var(d)));
+        for _ in 0..d {
+            body = abs(body);
+        }
+        pairs.push((abs(body.clone()), abs(app(Var(1), Var(2)))));
+        pairs.push((abs(body), Var(5)));
+    }
     for (t, a) in pairs {
         begin(format!("apply {} {}", ser(&t), ser(&a)));
         let mut recv = t.clone();
@@ -521,6 +530,30 @@ fn suite_meta_reduce(out: &mut Out, tier: &str, rng: &mut Rng) {
     let mut terms = universe(tier, 5, 6, 3);
     terms.extend(randoms(rng, if tier == "thorough" { 8000 } else { 1500 }, 35, true));
     for t in &terms {
+        // C06 on terms with very large free indices: the normalising orders that terminate must agree
+        for &bb in BS.iter() {
+            let x = shift_free(t, bb, 0);
+            let mut results: Vec<(&str, String)> = Vec::new();
+            for (o, oname) in ORDERS.iter() {
+                if !matches!(*oname, "NOR" | "HNO" | "APP" | "HAP") {
+                    continue;
+                }
+                let (_, total) = probe(*o, t, 40, 1500);
+                if total.is_none() {
+                    continue;
+                }
+                let mut u = x.clone();
+                begin(format!("meta-orders {} {}", oname, ser(&x)));
+                if guarded(|| u.reduce(*o, 0)).is_ok() {
+                    results.push((*oname, unshift_free(&u, bb, 0).map(|y| ser(&y)).unwrap_or(format!("ERR {}", ser(&u)))));
+                }
+            }
+            if results.len() >= 2 {
+                let agree = results.iter().all(|r| r.1 == results[0].1);
+                let detail = if agree { String::new() } else { results.iter().map(|r| format!("{}={}", r.0, r.1)).collect::<Vec<_>>().join(" ; ") };
+                out.line(format!("meta-orders\t{}\t{}\t{}\t{}\t{}", bb, ser(t), results.len(), agree as u8, detail));
+            }
+        }
         for (o, oname) in ORDERS.iter() {
             let (safe, total) = probe(*o, t, 40, 1500);
             let limit = if total.is_some() { 0 } else { safe };
